@@ -13,8 +13,8 @@ RULE = (
     "and async handlers; a quarter of the human's answers are falsy values - False, 0, '', () - which are answers all "
     "the same); every pause/resume history is played to completion on the async runner under a random "
     "controlled completion order (sibling nodes runnable in the interrupt's step included); interrupts inside nested "
-    "graphs at depth 1-2 and two sibling nested graphs that each contain an interrupt with a suspending handler (pause "
-    "identity). At each pause: status PAUSED, node path, value = the first input the handler received (call log) = "
+    "graphs at depth 1-2 (pause identity, and resume under the dotted key) and two sibling nested graphs that each "
+    "contain an interrupt with a suspending handler (pause identity). At each pause: status PAUSED, node path, value = the first input the handler received (call log) = "
     "RefEval's value, response key(s) as documented, no node downstream of the interrupt (spec relation) and no later "
     "interrupt has been invoked, every value of a node that has returned is in values and equals RefEval's, nothing "
     "else is. After answering under the reported key: that interrupt's handler is not invoked again and does not pause "
@@ -270,6 +270,36 @@ def nested_identity(ctx, i):
         ctx.violation("C14:nested-response-key", f"response_key={o.pause.response_key!r}, expected {want_key!r}", case)
     if R.paused is not None and o.pause.value != R.paused[1]:
         ctx.violation("C14:nested-value", f"pause.value={core.short(o.pause.value)} expected {core.short(R.paused[1])}", case)
+    # resume: the answer goes under the reported key(s); the history must end like the run whose handler answers
+    answers = answers_for(inner, rng)
+    auto_top = copy.deepcopy(top)
+    lvl = auto_top
+    while lvl["nodes"][0]["k"] == "sub" and len(lvl["nodes"]) == 1:
+        lvl = lvl["nodes"][0]["prog"]
+    lvl["nodes"] = auto_spec(lvl, answers)["nodes"]
+    oa = core.execute(auto_top, inputs, "async", sched=rt.Sched(default="rand", rng=rng))
+    if oa.exc is not None or oa.status != "completed":
+        ctx.inconc(f"nested auto-answering run did not complete: {oa.status} {oa.exc!r}")
+        return
+    cur = dict(inputs)
+    fm = ref.forward_map(list(ins["outs"]), ins.get("rename_out"))
+    back = {v: k for k, v in fm.items()}
+    for outn, key in o.pause.response_keys.items():
+        cur[key] = answers[(ins["name"], back.get(outn, outn))]
+    o2 = core.execute(top, cur, "async", sched=rt.Sched(default="rand", rng=rng))
+    ctx.obs["nested_resumes"] += 1
+    c2 = {**case, "provided": core.jsonable(cur)}
+    if o2.exc is not None:
+        ctx.violation("C14:nested-resume:raised:" + type(o2.exc).__name__, f"resuming {want_name} under {sorted(o.pause.response_keys.values())}: {o2.exc!r}", c2)
+    elif o2.status == "paused" and o2.pause is not None and o2.pause.node_name == o.pause.node_name:
+        ctx.violation("C14:nested-resume:paused-again", f"{want_name} paused again although its answer was supplied under the reported key(s) {sorted(o.pause.response_keys.values())}", c2)
+    elif o2.status != "completed":
+        ctx.violation("C14:nested-resume:status", f"after answering {want_name}: status {o2.status}", c2)
+    elif o2.values != oa.values:
+        diff = sorted(k for k in set(o2.values) | set(oa.values) if o2.values.get(k, "<absent>") != oa.values.get(k, "<absent>"))
+        ctx.violation("C14:nested-resume:differs-from-auto", f"pause+resume of {want_name} ends with {core.short({k: o2.values.get(k, '<absent>') for k in diff})}, the run whose handler answers gives {core.short({k: oa.values.get(k, '<absent>') for k in diff})}", c2)
+    elif o2.rec.invocations().get(f"{top['name']}/" + "/".join(path)):
+        ctx.violation("C14:nested-resume:asked-again", f"handler of {want_name} invoked although its answer was supplied", c2)
     ctx.case({"nested": depth, "s": gen.shape_of(inner)}, True)
 
 
